@@ -15,7 +15,8 @@ def sem(n, g, W, local=False):
         cnt = sum(len(set(n[3]) & set(P[x])) for x in [g] + list(N))
         return (cnt >= n[2]) != n[1]
     if k == "score":
-        v = any(P[x].get(n[2], -1) >= n[3] for x in [g] + list(N))
+        # inside cds(...) the inner formula is about one single gene on its own, minscore included
+        v = any(P[x].get(n[2], -1) >= n[3] for x in ([g] if local else [g] + list(N)))
         return v != n[1]
     if k == "and":
         return all(sem(c, g, W, local) for c in n[1])
@@ -56,7 +57,8 @@ def matches(n, g, W):
     if k == "or":
         return set().union(*[matches(c, g, W) for c in n[2]])
     if k == "cds":
-        return (_profiles(n[2]) & set(P[g])) if sem(n[2], g, W, True) else set()
+        # (for groups of identifiers this is every profile of the group that hits g; a minscore in the group counts as above)
+        return matches(n[2], g, W) if sem(n[2], g, W, True) else set()
     raise ValueError(k)
 
 
